@@ -163,20 +163,22 @@ def gate(R):
     q = S + '.run'
     g = R.cfg(q)
     rd = ReachingDefs(g)
+    from .common import hk_iters
+    its = hk_iters(R, g)
+    need(its, 'run(): no loop over the housekeeping generator found')
+    fornodes = set()
+    for (n, ok, desc, calls) in its:
+        fornodes |= set(m for (m, l) in n.succ if m.kind == 'for') | {n}
     for y in g.yields():
         if _event_names(R, g, rd, y) & REG_EVENTS:
-            # must be `yield x` for x in <closure call>
+            # must be `yield x` for x in <gated housekeeping generator>
             ds = rd.defs_at(y, U(y.ast.value)) if isinstance(y.ast.value, ast.Name) else set()
-            ok = bool(ds) and all(d.kind == 'for' and isinstance(d.ast.iter, ast.Call) and
-                                  R.types.resolves_to(d.ast.iter, g.ctx, q + '._regular') for d in ds)
+            ok = bool(ds) and all(d.kind == 'for' and d.stmt in [n.stmt for (n, _, _, _) in its] for d in ds)
             R.ob('C07.gate', 'housekeeping events come from the gated closure', ok,
                  'Poll/Unresponsive yielded from %s' % [d.text() for d in ds], func=q, node=y.ast)
-    gq = q + '._regular'
-    gg = R.cfg(gq)
-    rc = calls_to(R, gg, S + '._regular')
-    ok = len(rc) == 1 and match_exact(guard_atom_sets(gg, rc[0][0], within=rc[0][1]), [{('self._ready', True)}])
-    R.ob('C07.gate', 'closure gated on _ready', ok, 'self._regular() not gated on self._ready alone', func=gq,
-         node=(rc[0][1] if rc else None), construct='_ready gate')
+    for (n, ok, desc, calls) in its:
+        R.ob('C07.gate', 'closure gated on _ready', ok, 'self._regular() not gated on self._ready alone (%s)' % desc,
+             func=calls[0][0].ctx.func.qual if calls else q, node=(calls[0][2] if calls else None), construct='_ready gate')
 
 
 def ready(R):
